@@ -72,6 +72,13 @@ func (w *bufferedResponseWriter) Header() http.Header {
 }
 
 func (w *bufferedResponseWriter) WriteHeader(statusCode int) {
+	if statusCode >= 100 && statusCode < 200 && statusCode != http.StatusSwitchingProtocols {
+		// An informational response (e.g. 103 Early Hints) is not the status of
+		// the response being buffered: pass it on, and keep waiting for the real one.
+		w.ResponseWriter.WriteHeader(statusCode)
+		return
+	}
+
 	if !w.headerWritten {
 		w.statusCode = statusCode
 		w.headerWritten = true
